@@ -9,7 +9,7 @@
                then the statements about [find] / [matches] / [find_idx] used by Props/C06.v. *)
 From Coq Require Import Ascii String List Bool Arith NArith Lia.
 Import ListNotations.
-From AM Require Import Lib.Bytes Lib.Regex Model.RegexSpec Proofs.RegexLemmas.
+From AM Require Import Lib.Bytes Lib.Utf8 Lib.Regex Model.RegexSpec Proofs.RegexLemmas.
 
 (* ------------------------------------------------------------------ lists *)
 
@@ -49,6 +49,15 @@ Proof.
   induction T as [|y T IH]; intros p j.
   - rewrite !skipn_nil. reflexivity.
   - destruct p as [|p]; [reflexivity|]. cbn [skipn Nat.add]. apply IH.
+Qed.
+
+(* ------------------------------------------------------------------ one decoding step *)
+
+Lemma rune_step T p c : nth_error T p = Some c ->
+  1 <= snd (decode_rune (skipn p T)) /\ snd (decode_rune (skipn p T)) <= 4 /\ p + snd (decode_rune (skipn p T)) <= length T.
+Proof.
+  intros H. pose proof (nth_lt _ _ _ H) as Hlt. rewrite (nth_skipn_cons _ _ _ H).
+  destruct (decode_rune_width c (skipn (S p) T)) as (H1 & H2 & H3). cbn [length] in H3. rewrite skipn_length in H3. lia.
 Qed.
 
 (* ------------------------------------------------------------------ class runs *)
@@ -144,7 +153,7 @@ Lemma Parse_det T its p ops ls e pcs :
 Proof.
   intros H. induction H as [p ops|c r p ops ls e pcs Hc H IH|k c r p ops ls e pcs Hc Hk H IH
     |k n r p ops ls e pcs Hn Hf H IH|g r p ops ls e pcs H IH|g a r p ops ls e pcs Hl H IH
-    |r ops ls e pcs H IH|r p ops ls e pcs Hp H IH]; intros e' pcs' H2; inversion H2; subst.
+    |r ops ls e pcs H IH|r p ops ls e pcs Hp H IH|k c r p ops ls e pcs Hc Hk H IH]; intros e' pcs' H2; inversion H2; subst.
   - split; reflexivity.
   - apply IH. assumption.
   - apply IH. assumption.
@@ -152,6 +161,7 @@ Proof.
   - apply IH. assumption.
   - match goal with Hx : lookup_g g ops = Some _, Hy : lookup_g g ops = Some _ |- _ => rewrite Hx in Hy; injection Hy as <- end.
     match goal with Hx : Parse T r p ops ls e' _ |- _ => destruct (IH _ _ Hx) as [-> ->] end. split; reflexivity.
+  - apply IH. assumption.
   - apply IH. assumption.
   - apply IH. assumption.
 Qed.
@@ -167,7 +177,7 @@ Lemma Parse_bounds T its p ops ls e pcs :
 Proof.
   intros H. induction H as [p ops|c r p ops ls e pcs Hc H IH|k c r p ops ls e pcs Hc Hk H IH
     |k n r p ops ls e pcs Hn Hf H IH|g r p ops ls e pcs H IH|g a r p ops ls e pcs Hl H IH
-    |r ops ls e pcs H IH|r p ops ls e pcs Hp H IH]; intros Hle.
+    |r ops ls e pcs H IH|r p ops ls e pcs Hp H IH|k c r p ops ls e pcs Hc Hk H IH]; intros Hle.
   - repeat split; [lia|lia|constructor].
   - apply nth_lt in Hc. destruct (IH ltac:(lia)) as (H1 & H2 & H3). repeat split; [lia|lia|].
     eapply Forall_impl; [|exact H3]. cbn. intros x (Ha & Hb & Hc'). repeat split; [lia|lia|]. destruct Hc' as [Hi|Hi]; [left; exact Hi|right; lia].
@@ -184,6 +194,8 @@ Proof.
     cbn in Hl. destruct (Nat.eqb_spec g' g) as [->|Hne]; [injection Hl as ->; left; reflexivity|right; apply IHo; exact Hl].
   - exact (IH Hle).
   - exact (IH Hle).
+  - destruct (rune_step _ _ _ Hc) as (W1 & W2 & W3). destruct (IH W3) as (H1 & H2 & H3). repeat split; [lia|lia|].
+    eapply Forall_impl; [|exact H3]. cbn. intros x (Ha & Hb & Hc'). repeat split; [lia|lia|]. destruct Hc' as [Hi|Hi]; [left; exact Hi|right; lia].
 Qed.
 
 (* ------------------------------------------------------------------ the instrumented matcher against Parse *)
@@ -200,7 +212,7 @@ Theorem mi_spec T its : forall pos ops, pos <= length T -> mi_ok T its pos ops (
 Proof.
   induction its as [|it r IH]; intros pos ops Hle.
   - cbn. split; [constructor|]. intros ls' e' pcs' H. inversion H; subst. constructor.
-  - destruct it as [c|k|k|g|g| |].
+  - destruct it as [c|k|k|g|g| | |k].
     + (* ILit *)
       cbn [mi]. destruct (skipn pos T) as [|x s'] eqn:E.
       * cbn. intros ls' e' pcs' H. inversion H; subst.
@@ -240,7 +252,7 @@ Proof.
         cbn in Hf. injection Hf as <- <- <-. cbn in Hsj. destruct Hsj as [HP Hbest]. cbn. split.
         -- apply P_star; [lia| |exact HP]. rewrite sub_firstn. fold s. apply run_len_firstn. exact Hj.
         -- intros ls' e' pcs' H2. pose proof H2 as H2'.
-           inversion H2 as [ | | |k0 n' r0 p0 ops0 lr e0 pcs0 Hb' Hf' Hr| | | | ]; subst.
+           inversion H2 as [ | | |k0 n' r0 p0 ops0 lr e0 pcs0 Hb' Hf' Hr| | | | | ]; subst.
            pose proof (Hcls _ _ _ _ H2') as Hn'.
            destruct (lt_eq_lt_dec n' j) as [[Hlt|Heq]|Hgt].
            ++ apply LG_gt. exact Hlt.
@@ -249,7 +261,7 @@ Proof.
               destruct (mi r (pos + n') (skipn n' s) ops) as [[[e2 ls2] pcs2]|]; [discriminate|].
               cbn in Hstep. eapply Hstep. exact Hr.
       * cbn. intros ls' e' pcs' H2. pose proof H2 as H2'.
-        inversion H2 as [ | | |k0 n' r0 p0 ops0 lr e0 pcs0 Hb' Hf' Hr| | | | ]; subst.
+        inversion H2 as [ | | |k0 n' r0 p0 ops0 lr e0 pcs0 Hb' Hf' Hr| | | | | ]; subst.
         pose proof (Hcls _ _ _ _ H2') as Hn'.
         pose proof (try_desc_none_inv _ _ E n' Hn') as Hf. cbn beta in Hf. specialize (Hstep n' Hn').
         destruct (mi r (pos + n') (skipn n' s) ops) as [[[e2 ls2] pcs2]|]; [discriminate|].
@@ -285,6 +297,24 @@ Proof.
         -- intros ls' e' pcs' H2. inversion H2; subst. eapply IH. eassumption.
       * destruct (skipn_cons_nth _ _ _ _ E) as (_ & _ & Hlt).
         cbn. intros ls' e' pcs' H2. inversion H2; subst. lia.
+    + (* IRune *)
+      cbn [mi]. destruct (skipn pos T) as [|x s'] eqn:E.
+      * cbn. intros ls' e' pcs' H. inversion H; subst.
+        match goal with Hn : nth_error T pos = Some _ |- _ => apply nth_skipn_cons in Hn; congruence end.
+      * destruct (skipn_cons_nth _ _ _ _ E) as (Hx & Hs & Hlt).
+        destruct (rune_step _ _ _ Hx) as (W1 & W2 & W3). rewrite E in W1, W2, W3.
+        set (w := snd (decode_rune (x :: s'))) in *.
+        assert (Hsk : skipn w (x :: s') = skipn (pos + w) T) by (rewrite <- E; apply skipn_add).
+        destruct (in_cls k x) eqn:Hk.
+        -- cbn zeta. fold w. rewrite Hsk.
+           specialize (IH (pos + w) ops W3).
+           destruct (mi r (pos + w) (skipn (pos + w) T) ops) as [[[e ls] pcs]|]; cbn in *.
+           ++ destruct IH as [HP Hbest]. split; [eapply P_rune; [exact Hx|exact Hk|rewrite E; exact HP]|].
+              intros ls' e' pcs' H2. inversion H2; subst. eapply Hbest.
+              match goal with Hq : Parse T r _ ops ls' e' pcs' |- _ => rewrite E in Hq; exact Hq end.
+           ++ intros ls' e' pcs' H2. inversion H2; subst. eapply IH.
+              match goal with Hq : Parse T r _ ops ls' e' pcs' |- _ => rewrite E in Hq; exact Hq end.
+        -- cbn. intros ls' e' pcs' H2. inversion H2; subst. congruence.
 Qed.
 
 (* ------------------------------------------------------------------ Lib.Regex.m is the string image of mi *)
@@ -309,7 +339,7 @@ Theorem m_mi T its : forall pos ops cs, pos <= length T ->
 Proof.
   induction its as [|it r IH]; intros pos ops cs Hle.
   - reflexivity.
-  - destruct it as [c|k|k|g|g| |].
+  - destruct it as [c|k|k|g|g| | |k].
     + cbn [m mi]. destruct (skipn pos T) as [|x s'] eqn:E; [reflexivity|].
       destruct (skipn_cons_nth _ _ _ _ E) as (_ & Hs & Hlt). subst s'.
       destruct (Ascii.eqb x c); [apply IH; lia|reflexivity].
@@ -328,6 +358,12 @@ Proof.
     + cbn [m mi]. destruct (Nat.eqb pos 0); [apply IH; exact Hle|reflexivity].
     + cbn [m mi]. destruct (skipn pos T) as [|x s'] eqn:E; [|reflexivity].
       rewrite <- E. apply IH. exact Hle.
+    + cbn [m mi]. destruct (skipn pos T) as [|x s'] eqn:E; [reflexivity|].
+      destruct (skipn_cons_nth _ _ _ _ E) as (Hx & _ & _).
+      destruct (rune_step _ _ _ Hx) as (_ & _ & W3). rewrite E in W3.
+      set (w := snd (decode_rune (x :: s'))) in *.
+      assert (Hsk : skipn w (x :: s') = skipn (pos + w) T) by (rewrite <- E; apply skipn_add).
+      destruct (in_cls k x); [|reflexivity]. cbn zeta. fold w. rewrite Hsk. apply IH. exact W3.
 Qed.
 
 (* ------------------------------------------------------------------ the scan over start offsets *)
@@ -549,7 +585,8 @@ Inductive Shape : list item -> list nat -> str -> Prop :=
 | Sh_open g r ls w : Shape r ls w -> Shape (IOpen g :: r) ls w
 | Sh_close g r ls w : Shape r ls w -> Shape (IClose g :: r) ls w
 | Sh_bol r ls w : Shape r ls w -> Shape (IBol :: r) ls w
-| Sh_eol r ls w : Shape r ls w -> Shape (IEol :: r) ls w.
+| Sh_eol r ls w : Shape r ls w -> Shape (IEol :: r) ls w
+| Sh_rune k c v r ls w : in_cls k c = true -> length v < 4 -> Shape r ls w -> Shape (IRune k :: r) ls (c :: v ++ w).
 
 Lemma sub_cons (T : str) p e c : nth_error T p = Some c -> p < e -> sub T p e = c :: sub T (S p) e.
 Proof.
@@ -575,7 +612,7 @@ Theorem Parse_shape T its p ops ls e pcs :
 Proof.
   intros H. induction H as [p ops|c r p ops ls e pcs Hc H IH|k c r p ops ls e pcs Hc Hk H IH
     |k n r p ops ls e pcs Hn Hf H IH|g r p ops ls e pcs H IH|g a r p ops ls e pcs Hl H IH
-    |r ops ls e pcs H IH|r p ops ls e pcs Hp H IH]; intros Hle.
+    |r ops ls e pcs H IH|r p ops ls e pcs Hp H IH|k c r p ops ls e pcs Hc Hk H IH]; intros Hle.
   - unfold sub. rewrite Nat.sub_diag. constructor.
   - pose proof (nth_lt _ _ _ Hc) as Hlt. destruct (Parse_bounds _ _ _ _ _ _ _ H ltac:(lia)) as (H1 & _).
     rewrite (sub_cons _ _ _ _ Hc) by lia. constructor. apply IH. lia.
@@ -590,6 +627,11 @@ Proof.
   - constructor. apply IH. exact Hle.
   - constructor. apply IH. exact Hle.
   - constructor. apply IH. exact Hle.
+  - destruct (rune_step _ _ _ Hc) as (W1 & W2 & W3). set (w := snd (decode_rune (skipn p T))) in *.
+    destruct (Parse_bounds _ _ _ _ _ _ _ H W3) as (H1 & _).
+    rewrite (sub_split T p (p + w) e) by lia. rewrite sub_firstn, (nth_skipn_cons _ _ _ Hc).
+    destruct w as [|w']; [lia|]. cbn [firstn app]. apply Sh_rune; [exact Hk| |apply IH; exact W3].
+    pose proof (firstn_le_length w' (skipn (S p) T)). lia.
 Qed.
 
 (* ------------------------------------------------------------------ the checker for given star lengths *)
@@ -599,7 +641,7 @@ Theorem parse_with_sound T its : forall pos ops ls e pcs, pos <= length T ->
 Proof.
   induction its as [|it r IH]; intros pos ops ls e pcs Hle H.
   - destruct ls; [|discriminate]. injection H as <- <-. constructor.
-  - destruct it as [c|k|k|g|g| |]; cbn [parse_with] in H.
+  - destruct it as [c|k|k|g|g| | |k]; cbn [parse_with] in H.
     + destruct (skipn pos T) as [|x s'] eqn:E; [discriminate|].
       destruct (skipn_cons_nth _ _ _ _ E) as (Hx & Hs & Hlt). subst s'.
       destruct (Ascii.eqb x c) eqn:Exc; [|discriminate]. apply Ascii.eqb_eq in Exc. rewrite Exc in Hx.
@@ -617,6 +659,13 @@ Proof.
     + destruct pos as [|pos]; [|discriminate]. cbn in H. apply P_bol. apply IH; assumption.
     + destruct (skipn pos T) as [|x s'] eqn:E; [|discriminate].
       apply P_eol; [apply skipn_nil_len; assumption|]. apply IH; [exact Hle|]. rewrite E. exact H.
+    + destruct (skipn pos T) as [|x s'] eqn:E; [discriminate|].
+      destruct (skipn_cons_nth _ _ _ _ E) as (Hx & _ & _).
+      destruct (rune_step _ _ _ Hx) as (_ & _ & W3). rewrite E in W3.
+      set (w := snd (decode_rune (x :: s'))) in *.
+      assert (Hsk : skipn w (x :: s') = skipn (pos + w) T) by (rewrite <- E; apply skipn_add).
+      destruct (in_cls k x) eqn:Hk; [|discriminate]. cbn zeta in H. fold w in H. rewrite Hsk in H.
+      eapply P_rune; [exact Hx|exact Hk|]. rewrite E. apply IH; [exact W3|exact H].
 Qed.
 
 (* ------------------------------------------------------------------ restatements used by Props/C06 C11 C17 *)
